@@ -52,7 +52,8 @@ RULE = ("for each of 11 file kinds (sig JSON, sig.gz, zip, sqldb, manifest CSV, 
         "(version strings around the float comparison, every required key deleted / retyped, per-cell conversions incl. int()/literal_eval edge cases, "
         "short/long/blank rows, duplicated header columns, picklist argument strings x coltypes, index versions 1-6 and documents shaped for them, "
         "storage back ends, factory args, position keys in every int() spelling and as size fields, d, manifest pointers, undecodable bytes before and after "
-        "the decoder's first chunk) and two list-of-paths files that name themselves / each other; each file is loaded through the loader a user reaches "
+        "the decoder's first chunk; gzip streams whole / cut / corrupted / with trailing bytes under *.gz and plain names; zip-stored SBTs with zero, one, two "
+        "description members and damaged descriptions) and two list-of-paths files that name themselves / each other; each file is loaded through the loader a user reaches "
         "(generic loader + iteration + a search, manifest, picklist, taxonomy loaders) in a worker; after a failed load a sentinel sketch must still have "
         "the right md5; for modelled kinds the real reader is also called directly (facts + executed-line count) and the Lean model is run on the decoders' "
         "answers for the same file; every load_file_as_index call is recorded loader by loader and replayed through the chain model; "
@@ -362,7 +363,7 @@ def _worker_entry(args):
 WORK_K, WORK_K0 = 25, 400         # lines executed by the reader  <=  WORK_K * model work + WORK_K0
 WORK_L, WORK_L0 = 3, 60           # model work                    <=  WORK_L * lines + WORK_L0
 
-READERS = {"mf": "manifest-reader", "pl": "picklist-reader", "lca": "lca-reader", "sbt": "sbt-reader", "chain": "loader-chain"}
+READERS = {"mf": "manifest-reader", "mff": "manifest-file-reader", "pl": "picklist-reader", "lca": "lca-reader", "sbt": "sbt-reader", "chain": "loader-chain"}
 
 
 def split_w(m):
@@ -473,6 +474,8 @@ def main():
         def add_mutant(kind, seedpath, suffix, j, m, extra, tgt):
             d = os.path.join(tmp, f"{kind}_{'t' if tgt else 'r'}{j}")
             os.makedirs(d)
+            if extra is not None and extra.startswith("suffix="):
+                suffix, extra = extra[len("suffix="):], None      # the file name is part of the damage (manifest: *.gz)
             mp = os.path.join(d, "m" + suffix)
             if kind == "sbtjson":
                 # keep the node directory reachable
@@ -501,6 +504,8 @@ def main():
                 tg = targeted.sbtjson(seed, chk.rng, thorough=chk.tier == "thorough")
             elif kind == "lca":
                 tg = targeted.lca(seed, chk.rng)
+            elif kind == "sbtzip":
+                tg = targeted.sbtzip(seed, chk.rng)
             if chk.tier == "quick" and len(tg) > 450:
                 keep = set(chk.rng.sample(range(len(tg)), 450))
                 tg = [t for i, t in enumerate(tg) if i in keep]
@@ -600,6 +605,18 @@ def main():
                                   f"loading a damaged {kind} file ({len(data)} bytes) exhausted a resource: MemoryError", rp)
             elif is_seed and not o.startswith("ok"):
                 chk.add_violation("oracle", f"C20:{kind}:seed-rejected", f"the unmodified valid {kind} seed file was rejected: {o}", rp)
+            # C20.4 (repaired): a pickfile that is valid UTF-8 and valid CSV must not be refused by the version sniffing
+            plf = facts.get("pl")
+            if kind in ("picklist", "plarg") and plf == "exc Error" and not data.startswith(b"\x1f\x8b"):
+                try:
+                    import csv as _csv
+                    import io as _io
+                    list(_csv.reader(_io.StringIO(data.decode("utf-8"), newline="")))
+                    chk.add_violation("oracle", "C20:picklist:valid-utf8-refused-at-buffer-edge",
+                                      f"a {len(data)}-byte pickfile that is valid UTF-8 and valid CSV was refused with csv.Error "
+                                      f"(a multi-byte character cut by the edge of the first buffered chunk?)", rp)
+                except (UnicodeDecodeError, _csv.Error):
+                    pass
             # amplification: the work a reader does must be bounded by the size of what it reads
             sb = facts.get("sbt")
             if isinstance(sb, str) and sb.startswith("ok"):
